@@ -25,6 +25,7 @@ type Config struct {
 	QueryTimeout int // ms
 	ReverseMaps  bool
 	Sched        string // "canonical" | "explore"
+	SchedRev     bool   // round robin in descending thread order (a second canonical schedule)
 	Preempt      int
 	MaxPaths     int
 	MaxConcr     int
@@ -86,6 +87,7 @@ type Engine struct {
 	dialConn    Iface
 	lastPanicPos string
 	narr        int
+	nrand       int
 
 	// threads
 	threads []*Thread
@@ -111,6 +113,15 @@ func (e *Engine) global(g *ssa.Global) *Value {
 	}
 	v := new(Value)
 	*v = e.zero(g.Type().Underlying().(*types.Pointer).Elem())
+	if g.Pkg != nil && g.Pkg.Pkg.Path() == "crypto/rand" && g.Name() == "Reader" {
+		// crypto/rand.Reader (its package's init is not run): an object of the package's own reader type;
+		// its Read is an environment stub that returns arbitrary bytes (see intrinsics)
+		if tn := g.Pkg.Type("reader"); tn != nil {
+			cell := new(Value)
+			*cell = e.zero(tn.Type())
+			*v = Iface{t: types.NewPointer(tn.Type()), v: cell}
+		}
+	}
 	e.globals[g] = v
 	return v
 }
